@@ -31,23 +31,50 @@ def comb_event(pp, tid, A, kind, size, via):
         call(lambda: getattr(a, kind)(**kw))
         a.add_internal_mod(e["i"], [Mod(anngen.pyval(last["v"]), last["m"])], append=True)
 
+    elif via == "method" and len(A["internal"]) >= 2 and len(tid) % 2 == 0:
+        # the residue modifications were added right to left (the object stores them in that order)
+        import copy
+        from peptacular.proforma.proforma_dataclasses import Mod
+        A0 = copy.deepcopy(A)
+        A0["internal"] = []
+        a = anngen.build(pp, A0)
+        for e in reversed(A["internal"]):
+            a.add_internal_mod(e["i"], [Mod(anngen.pyval(m["v"]), m["m"]) for m in e["mods"]], append=True)
+
     def f():
         if via == "method":
             return getattr(a, kind)(**kw)
         text = anngen.render(A)
+        project.maybe_poison(pp, text, tid, every=2)
         return [pp.parse(s) for s in getattr(pp, kind)(text, **kw)]
     o, res = call(f)
-    o_again, res_again = call(f)       # the same expansion again on the same object: must give the same list
     ev = {"tid": tid, "k": "c19", "op": "comb", "A": A, "kind": kind, "size": size, "via": via, "out": o,
-          "res": [], "again": [], "allParse": True}
+          "res": [], "again": [], "allParse": True, "siblings": [], "argAfter": A}
     if o == "ret":
         ev["res"] = [project.ann(r) for r in res]
-        ev["again"] = [project.ann(r) for r in res_again] if o_again == "ret" else [anngen.empty("")]
         ok = True
         for r in res[:200]:
             o2, b = call(lambda: pp.parse(r.serialize()))
             ok = ok and o2 == "ret" and b == r
         ev["allParse"] = bool(ok)
+        if res:
+            # one returned annotation is then edited in place (every list it owns gets one more entry): the other
+            # results, the source and a second expansion are what they were
+            from peptacular.proforma.proforma_dataclasses import Mod
+            first = res[0]
+            def edit():
+                for name in ("add_nterm_mods", "add_cterm_mods", "add_labile_mods", "add_unknown_mods", "add_isotope_mods",
+                             "add_static_mods", "add_charge_adducts"):
+                    getattr(first, name)([Mod("EDIT", 1)], append=True)
+                first.add_internal_mod(0, [Mod("EDIT", 1)], append=True)
+            call(edit)
+            ev["siblings"] = ev["res"][:1] + [project.ann(r) for r in res[1:]]
+        if via == "method":
+            o_a, after = call(lambda: project.ann(a))
+            ev["argAfter"] = after if o_a == "ret" else anngen.empty("")
+    o_again, res_again = call(f)       # the same expansion again on the same object: must give the same list
+    if o == "ret":
+        ev["again"] = [project.ann(r) for r in res_again] if o_again == "ret" else [anngen.empty("")]
     return ev
 
 
